@@ -8,7 +8,7 @@ use opcua::server::prelude::*;
 use opcua::server::session::Session;
 use opcua::sync::RwLock;
 use opcua::verif_hooks::aspace::VNodeManagementService;
-use opcua::verif_hooks::view::{browse_continuation_point_count, VViewService};
+use opcua::verif_hooks::view::{browse_continuation_point_count, set_view_limits, view_limits, VViewService};
 use std::collections::HashMap;
 use std::sync::Arc;
 
@@ -111,7 +111,19 @@ impl Prop for C30 {
                             3 => u32::MAX as u64,
                             _ => rng.range(1, 12) as u64,
                         };
-                        out.push(format!("browse {} {} {} {} {} {} {}", n, dir, ty, b(rng.chance(2, 3)), mask, rmask, req));
+                        match rng.weighted(&[12, 3, 1, 1]) {
+                            0 => out.push(format!("browse {} {} {} {} {} {} {}", n, dir, ty, b(rng.chance(2, 3)), mask, rmask, req)),
+                            1 => {
+                                let k = rng.range(0, 4);
+                                let ns: Vec<String> = (0..k).map(|_| format!("{}", rng.range(1, u.min(4) as i64 + 1))).collect();
+                                if rng.chance(1, 3) {
+                                    out.push(format!("blimit {}", rng.range(0, 4)));
+                                }
+                                out.push(format!("browsem [{}] {} {} {} {} {} {}", ns.join(","), dir, ty, b(rng.chance(2, 3)), mask, rmask, req));
+                            }
+                            2 => out.push(format!("browsev {}", n)),
+                            _ => out.push(format!("blimit {}", rng.pick(&[0u32, 1, 2, 3, 50]))),
+                        }
                     }
                     1 => {
                         // continue the most recent chain, or poke at older / unknown tokens
@@ -178,7 +190,7 @@ fn random_mutation(rng: &mut Rng, u: u32) -> String {
 /// every mutating entry point with every flag value, applied between a paged Browse and the
 /// BrowseNext on its continuation point (nodes 1..5 of class Object, 1 → 2,3,4 Organizes,
 /// 2 → 5 HasComponent, 4 → 5 Organizes)
-const MUTATIONS: [&str; 34] = [
+const MUTATIONS: [&str; 46] = [
     "node 9 1",
     "node 3 1",
     "nodep 9 2 1 35",
@@ -213,9 +225,47 @@ const MUTATIONS: [&str; 34] = [
     "sdelref 1 4 1000 1 0",
     "saddref 3 5 35 1 1",
     "saddref 5 3 35 0 1",
+    "saddref 1 4 35 1 1",
+    "saddref 3 5 35 1 2",
+    "saddref 3 5 35 1 0",
+    "saddref 3 5 1000 1 1",
+    "saddref 5 3 1000 0 1",
+    "saddref 5 3 35 0 2",
+    "saddref 5 3 35 0 0",
+    "saddref 3 9 35 1 1",
+    "saddref 9 3 35 0 1",
+    "sdelnode 9 1",
+    "sdelref 9 4 35 1 0",
+    "sdelref 1 9 35 1 0",
 ];
 
+/// the bounded store at its limit: 19, 20, 21 … outstanding points, then the evicted / oldest / newest ones
+fn flood(rng: &mut Rng, out: &mut Vec<String>) {
+    out.push("reset".to_string());
+    for id in 1..=4 {
+        out.push(format!("node {} 1", id));
+    }
+    for l in ["ref 1 2 35", "ref 1 3 35", "ref 1 4 35"] {
+        out.push(l.to_string());
+    }
+    let total = rng.range(19, 24);
+    for _ in 0..total {
+        out.push(format!("browse 1 0 0 0 0 63 {}", rng.range(1, 2)));
+    }
+    out.push("next [@0]".to_string()); // consumes one, issues one (or the last page)
+    for k in [total - 1, 20, 19, 18, 21, 0] {
+        out.push(format!("next [@{}]", k));
+    }
+    out.push("browse 1 0 0 0 0 63 1".to_string());
+    out.push("release [@1,@2]".to_string());
+    out.push("browse 1 0 0 0 0 63 1".to_string());
+}
+
 fn scenario(rng: &mut Rng, k: usize, out: &mut Vec<String>) {
+    if k % 12 == 5 {
+        flood(rng, out);
+        return;
+    }
     out.push("reset".to_string());
     for id in 1..=5 {
         out.push(format!("node {} 1", id));
@@ -758,7 +808,86 @@ impl Runner for R {
     fn step(&mut self, toks: &[&str]) -> (String, Verdict) {
         let max_cps = opcua::server::constants::MAX_BROWSE_CONTINUATION_POINTS;
         match toks {
-            ["reset"] => ("ok".to_string(), Verdict::Ok),
+            ["reset"] => {
+                let fx = fixtures::server();
+                let mut ss = fx.server_state.write();
+                let (_, t) = view_limits(&ss);
+                set_view_limits(&mut ss, 50, t);
+                ("ok".to_string(), Verdict::Ok)
+            }
+            ["blimit", l] => {
+                let Ok(l) = l.parse::<u32>() else { return ("bad-op".into(), Verdict::Ok) };
+                let fx = fixtures::server();
+                let mut ss = fx.server_state.write();
+                let (_, t) = view_limits(&ss);
+                set_view_limits(&mut ss, l as usize, t);
+                ("ok".to_string(), Verdict::Ok)
+            }
+            ["browsev", n] => {
+                let Ok(n) = n.parse::<u32>() else { return ("bad-op".into(), Verdict::Ok) };
+                let fx = fixtures::server();
+                let mut req = Self::browse_request(n, 0, 0, false, 0, 63, 1);
+                req.view.view_id = NodeId::new(1, 7777u32);
+                let before = self.count();
+                let line = match VViewService::new().browse(fx.server_state.clone(), self.session.clone(), self.address_space.clone(), &req) {
+                    SupportedMessage::ServiceFault(f) => format!("err {}", f.response_header.service_result.name()),
+                    _ => "ok ?".to_string(),
+                };
+                let v = if self.count() != before { Verdict::fail("cp_bounded", "view", "a rejected request left a continuation point") } else { Verdict::Ok };
+                (line, v)
+            }
+            ["browsem", ns, dir, ty, sub, mask, rmask, req] => {
+                let Some(ns) = plist(ns) else { return ("bad-op".into(), Verdict::Ok) };
+                let ns: Option<Vec<u32>> = ns.into_iter().map(p32).collect();
+                let (Some(ns), Some(dir), Some(ty), Some(sub), Some(mask), Some(rmask), Some(req)) = (ns, p32(dir), p32(ty), pbool(sub), p32(mask), p32(rmask), p32(req)) else {
+                    return ("bad-op".into(), Verdict::Ok);
+                };
+                if dir > 3 || !(ty == 0 || ty_ok(ty)) || ns.len() > 30 {
+                    return ("bad-op".into(), Verdict::Ok);
+                }
+                let fx = fixtures::server();
+                let class = format!("browsem-dir{}", dir);
+                // reference: each node's unpaged result, on the oracle session
+                let fulls: Vec<Option<Vec<D>>> = ns.iter().map(|n| self.unpaged(*n, dir, ty, sub, mask, rmask)).collect();
+                let mut request = Self::browse_request(0, dir, ty, sub, mask, rmask, req);
+                let template = request.nodes_to_browse.as_ref().unwrap()[0].clone();
+                request.nodes_to_browse = Some(ns.iter().map(|n| BrowseDescription { node_id: node_id(*n), ..template.clone() }).collect());
+                let results = match VViewService::new().browse(fx.server_state.clone(), self.session.clone(), self.address_space.clone(), &request) {
+                    SupportedMessage::BrowseResponse(r) => r.results.unwrap_or_default(),
+                    SupportedMessage::ServiceFault(f) => return (format!("err {}", f.response_header.service_result.name()), Verdict::Ok),
+                    _ => return ("err other".into(), Verdict::fail("browse_status", &class, "unexpected message")),
+                };
+                let exact = dir == 0;
+                let page = if (1..=255).contains(&req) { Some(req as usize) } else { None };
+                let mut parts = Vec::new();
+                let mut verdict = if results.len() != ns.len() { Verdict::fail("browse_status", &class, "result count differs from node count") } else { Verdict::Ok };
+                for (r, full) in results.iter().zip(fulls.into_iter()) {
+                    if !r.status_code.is_good() {
+                        if full.is_some() {
+                            verdict = first_fail(verdict, Verdict::fail("page_slice", &class, "paged browse failed but the unpaged browse succeeded"));
+                        }
+                        parts.push(r.status_code.name().to_string());
+                        continue;
+                    }
+                    let got: Vec<D> = r.references.clone().unwrap_or_default().iter().map(desc).collect();
+                    let (cp, v) = match full {
+                        Some(full) => self.check_page(r, exact, full, 0, page, &class),
+                        None => ("?".to_string(), Verdict::fail("page_slice", &class, "unpaged browse failed but the paged one succeeded")),
+                    };
+                    verdict = first_fail(verdict, v);
+                    let body = if exact {
+                        format!("refs={}", show_descs(&got))
+                    } else if r.continuation_point.is_null() {
+                        format!("set={}", show_descs(&sorted(&got)))
+                    } else {
+                        "~".to_string()
+                    };
+                    parts.push(format!("Good n={} cp={} {}", got.len(), cp, body));
+                }
+                let count = self.count();
+                let verdict = first_fail(verdict, if count > max_cps { Verdict::fail("cp_bounded", &class, format!("{} continuation points", count)) } else { Verdict::Ok });
+                (format!("ok {} c={}", parts.join(" | "), count), verdict)
+            }
             [op, ..] if MUT_OPS.contains(op) => {
                 let before = self.snapshot_for(toks);
                 match self.mutate(toks) {
@@ -786,7 +915,10 @@ impl Runner for R {
                 let full = self.unpaged(n, dir, ty, sub, mask, rmask);
                 let r = match self.browse_one(&self.session, &Self::browse_request(n, dir, ty, sub, mask, rmask, req)) {
                     Ok(r) => r,
-                    Err(e) => return (format!("err {}", e.name()), Verdict::fail("browse_status", &class, "service fault")),
+                    Err(e) => {
+                        let v = if view_limits(&fixtures::server().server_state.read()).0 == 0 { Verdict::Ok } else { Verdict::fail("browse_status", &class, "service fault") };
+                        return (format!("err {}", e.name()), v);
+                    }
                 };
                 let exact = dir == 0;
                 if !r.status_code.is_good() {
